@@ -1,5 +1,1375 @@
-//! C15 - monitor not built yet.
+//! C15 - KIP parsing is total, bounded, deterministic and classifies by content.
+//!
+//! Exploration by grammar-based generation + metamorphic relations (DESIGN.md C15). Inputs:
+//! (a) Unicode / byte noise and keyword soup, (b) sentences of a generator written from
+//! KIPSyntax.md / the specification (every pattern family, clause menu and META command, one path
+//! drilled to and beyond the nesting limit), (c) the repository's own corpora read at run time,
+//! (d) token-level mutations of (b)/(c). Every input is handed to the five entry points twice
+//! (determinism), the general entry point is compared with the three specific ones, and accepted
+//! inputs go through `validate_command`, a serde_json round trip, stray-token appends and the
+//! case / trivia / compaction variants of a harness-side tokenizer.
+//!
+//! All parsing happens in child processes on a thread with a small fixed stack; a child that dies
+//! is bisected to the input (`parser-aborted`). Pathological inputs are timed at doubling sizes in
+//! CPU time of the parsing thread; only an absolute bound on the largest legal input is a verdict.
+
+use anda_kip::{
+    Command, KipError, KipErrorCode, MAX_KIP_INPUT_LEN, MAX_KIP_NESTING_DEPTH, parse_json, parse_kip, parse_kml, parse_kql,
+    parse_meta, validate_command,
+};
+use std::alloc::{GlobalAlloc, Layout, System};
+use std::cell::Cell;
+use std::collections::BTreeMap;
+use std::sync::OnceLock;
+use std::time::Duration;
+use v_kip::corpus::{self, Item};
+use v_kip::families::{families, major};
+use v_kip::generate::{self, GK, Gen};
+use v_kip::lex::{self, Lexed, Variant};
+use v_kip::mutate;
+use v_kip::proc::{self, ChildSpec, trace};
+use vcore::{Rng, Run, Stats, Value, fnv_str, json};
+
+// ---------------------------------------------------------------------------------------------
+// counting allocator (per thread): "refused before parsing" is observed as "refused with a
+// handful of allocations although the input is large"
+
+thread_local! {
+    static ALLOCS: Cell<u64> = const { Cell::new(0) };
+}
+
+struct Counting;
+
+unsafe impl GlobalAlloc for Counting {
+    unsafe fn alloc(&self, l: Layout) -> *mut u8 {
+        let _ = ALLOCS.try_with(|c| c.set(c.get() + 1));
+        unsafe { System.alloc(l) }
+    }
+    unsafe fn dealloc(&self, p: *mut u8, l: Layout) {
+        unsafe { System.dealloc(p, l) }
+    }
+    unsafe fn realloc(&self, p: *mut u8, l: Layout, n: usize) -> *mut u8 {
+        let _ = ALLOCS.try_with(|c| c.set(c.get() + 1));
+        unsafe { System.realloc(p, l, n) }
+    }
+}
+
+#[global_allocator]
+static GLOBAL: Counting = Counting;
+
+fn allocs() -> u64 {
+    ALLOCS.try_with(|c| c.get()).unwrap_or(0)
+}
+
+// ---------------------------------------------------------------------------------------------
+// guarded calls
+
+fn short_loc(loc: &str) -> String {
+    if let Some(i) = loc.find("/rs/") {
+        return loc[i + 1..].to_string();
+    }
+    if let Some(i) = loc.find("/registry/src/") {
+        let rest = &loc[i + 14..];
+        return rest.split_once('/').map(|x| x.1).unwrap_or(rest).to_string();
+    }
+    loc.to_string()
+}
+
+fn head(s: &str) -> String {
+    if s.len() <= 3000 {
+        s.to_string()
+    } else {
+        let h: String = s.chars().take(1500).collect();
+        let chars: Vec<char> = s.chars().collect();
+        let t: String = chars[chars.len() - 600..].iter().collect();
+        format!("{h} ...[{} bytes]... {t}", s.len())
+    }
+}
+
+/// Runs `f` (a call into the code under test); a panic is a totality violation.
+fn guard<T>(stage: &str, input: &str, origin: &str, st: &mut Stats, f: impl FnOnce() -> T) -> Option<T> {
+    trace(stage, input);
+    match std::panic::catch_unwind(std::panic::AssertUnwindSafe(f)) {
+        Ok(v) => Some(v),
+        Err(p) => {
+            let loc = short_loc(&vcore::run::take_last_panic_location());
+            st.violation(
+                format!("C15/panic/{stage}/{loc}"),
+                json!({"stage": stage, "panic": vcore::run::panic_message(&p), "location": loc, "origin": origin,
+                       "input_len": input.len(), "input": head(input)}),
+            );
+            None
+        }
+    }
+}
+
+fn err_key(e: &KipError) -> String {
+    format!("{:?}|{}|{:?}|{:?}", e.code, e.message, e.hint, e.details)
+}
+
+/// One entry point, twice: panics are violations, differing results too.
+fn entry<T: PartialEq>(
+    name: &'static str,
+    text: &str,
+    origin: &str,
+    st: &mut Stats,
+    f: impl Fn(&str) -> Result<T, KipError>,
+) -> Option<Result<T, KipError>> {
+    let a = guard(name, text, origin, st, || f(text))?;
+    let b = guard(name, text, origin, st, || f(text))?;
+    st.eval();
+    let same = match (&a, &b) {
+        (Ok(x), Ok(y)) => x == y,
+        (Err(x), Err(y)) => err_key(x) == err_key(y),
+        _ => false,
+    };
+    if !same {
+        st.violation(
+            format!("C15/nondeterministic/{name}"),
+            json!({"entry": name, "origin": origin, "input": head(text),
+                   "first": a.as_ref().map(|_| "ok").map_err(err_key), "second": b.as_ref().map(|_| "ok").map_err(err_key)}),
+        );
+    }
+    st.count("oracle_determinism");
+    Some(a)
+}
+
+fn is_resource(e: &KipError) -> bool {
+    e.code == KipErrorCode::ResourceExhausted
+}
+
+// ---------------------------------------------------------------------------------------------
+// the oracles for one input
+
+#[derive(Clone, Copy, PartialEq, Debug)]
+enum Expect {
+    Nothing,
+    /// constructed over the length or nesting limit: every entry point refuses with the resource error
+    Refused,
+    /// plainly legal (padding of a trivial command): must be accepted
+    Accepted,
+}
+
+const NEVER_LEGAL: &[&str] = &[";", "%", "@", "#", ")", "}", "]", "\\", "'"];
+const MAYBE_LEGAL: &[&str] = &["\"x\"", "?z", ":p", "FIND", "LIMIT 1", "1", "{}", "WHERE", "null"];
+
+struct Checked {
+    accepted: Option<Command>,
+}
+
+fn check_input(text: &str, origin: &str, expect: Expect, rng: &mut Rng, st: &mut Stats) -> Checked {
+    st.count("inputs");
+    st.count(&format!("inputs:{origin}"));
+    let none = Checked { accepted: None };
+    let Some(kip) = entry("parse_kip", text, origin, st, parse_kip) else { return none };
+    let Some(kql) = entry("parse_kql", text, origin, st, parse_kql) else { return none };
+    let Some(kml) = entry("parse_kml", text, origin, st, parse_kml) else { return none };
+    let Some(meta) = entry("parse_meta", text, origin, st, parse_meta) else { return none };
+    let Some(jsn) = entry("parse_json", text, origin, st, parse_json) else { return none };
+
+    // ---- limits
+    let over_len = text.len() > MAX_KIP_INPUT_LEN;
+    if over_len || expect == Expect::Refused {
+        st.count("oracle_refused_over_limit");
+        let all = [
+            ("parse_kip", kip.as_ref().err().map(is_resource)),
+            ("parse_kql", kql.as_ref().err().map(is_resource)),
+            ("parse_kml", kml.as_ref().err().map(is_resource)),
+            ("parse_meta", meta.as_ref().err().map(is_resource)),
+            ("parse_json", jsn.as_ref().err().map(is_resource)),
+        ];
+        for (name, r) in all {
+            if r != Some(true) {
+                st.violation(
+                    format!("C15/limit-not-enforced/{name}/{}", if over_len { "length" } else { "nesting" }),
+                    json!({"entry": name, "origin": origin, "input_len": text.len(), "input": head(text),
+                           "got": match r { None => "accepted", Some(_) => "refused with another error" }}),
+                );
+            }
+        }
+    }
+    if expect == Expect::Accepted && !over_len {
+        st.count("oracle_plainly_legal_accepted");
+        if let Err(e) = &kip {
+            st.violation(
+                "C15/legal-padding-refused",
+                json!({"origin": origin, "input_len": text.len(), "input": head(text), "error": err_key(e)}),
+            );
+        }
+    }
+
+    // ---- classification / agreement between the entry points
+    st.count("oracle_agreement");
+    let disagree = |st: &mut Stats, what: &str, detail: Value| {
+        st.violation(format!("C15/entry-points-disagree/{what}"), json!({"origin": origin, "input": head(text), "detail": detail}));
+    };
+    match &kip {
+        Ok(Command::Kql(q)) => {
+            st.count("class:Kql");
+            if kql.as_ref().ok() != Some(q) {
+                disagree(st, "kip=Kql,parse_kql-differs", json!(kql.as_ref().err().map(err_key)));
+            }
+            if kml.is_ok() || meta.is_ok() {
+                disagree(st, "kip=Kql,other-specific-accepts", json!({"kml": kml.is_ok(), "meta": meta.is_ok()}));
+            }
+        }
+        Ok(Command::Kml(s)) => {
+            st.count("class:Kml");
+            if kml.as_ref().ok() != Some(s) {
+                disagree(st, "kip=Kml,parse_kml-differs", json!(kml.as_ref().err().map(err_key)));
+            }
+            if kql.is_ok() || meta.is_ok() {
+                disagree(st, "kip=Kml,other-specific-accepts", json!({"kql": kql.is_ok(), "meta": meta.is_ok()}));
+            }
+        }
+        Ok(Command::Meta(m)) => {
+            st.count("class:Meta");
+            if meta.as_ref().ok() != Some(m) {
+                disagree(st, "kip=Meta,parse_meta-differs", json!(meta.as_ref().err().map(err_key)));
+            }
+            if kql.is_ok() || kml.is_ok() {
+                disagree(st, "kip=Meta,other-specific-accepts", json!({"kql": kql.is_ok(), "kml": kml.is_ok()}));
+            }
+        }
+        Err(_) => {
+            st.count("class:rejected");
+            // parse_kip = specific parser + validate_command: a specific parser may accept only
+            // what validate_command then refuses
+            if kql.is_ok() {
+                disagree(st, "kip=Err,parse_kql-accepts", Value::Null);
+            }
+            if kml.is_ok() {
+                disagree(st, "kip=Err,parse_kml-accepts", Value::Null);
+            }
+            if let Ok(m) = &meta {
+                let c = Command::Meta(m.clone());
+                match guard("validate_command", text, origin, st, || validate_command(&c)) {
+                    Some(Ok(())) => disagree(st, "kip=Err,parse_meta+validate-accepts", Value::Null),
+                    Some(Err(_)) => st.count("meta_accepted_by_parse_meta_refused_by_validate"),
+                    None => {}
+                }
+            }
+        }
+    }
+
+    // ---- the JSON dialect
+    if let Ok(j) = &jsn {
+        st.count("json_accepted");
+        st.set("distinct_json_values", fnv_str(&j.to_string()));
+        let lexed = lex::lex(text);
+        let (vt, changed) = lexed.render(Variant::Trivia, rng);
+        if changed > 0 && vt.len() <= MAX_KIP_INPUT_LEN {
+            st.count("oracle_json_trivia_variant");
+            if let Some(r) = guard("parse_json:variant", &vt, origin, st, || parse_json(&vt)) {
+                if r.as_ref().ok() != Some(j) {
+                    st.violation(
+                        "C15/metamorphic/json-trivia",
+                        json!({"origin": origin, "base": head(text), "variant": head(&vt), "error": r.err().map(|e| err_key(&e))}),
+                    );
+                }
+            }
+        }
+        let t2 = format!("{text}\n;");
+        if t2.len() <= MAX_KIP_INPUT_LEN {
+            if let Some(Ok(_)) = guard("parse_json:stray", &t2, origin, st, || parse_json(&t2)) {
+                st.violation("C15/trailing-token-ignored/json", json!({"origin": origin, "input": head(&t2)}));
+            }
+        }
+    }
+
+    let Ok(cmd) = kip else { return none };
+    accepted_pipeline(text, origin, &cmd, rng, st);
+    Checked { accepted: Some(cmd) }
+}
+
+fn accepted_pipeline(text: &str, origin: &str, cmd: &Command, rng: &mut Rng, st: &mut Stats) {
+    st.count("accepted");
+    st.count(&format!("accepted:{origin}"));
+
+    // ---- validate again
+    st.count("oracle_revalidate");
+    if let Some(Err(e)) = guard("validate_command", text, origin, st, || validate_command(cmd)) {
+        st.violation("C15/revalidation-refuses-parsed-command", json!({"origin": origin, "input": head(text), "error": err_key(&e)}));
+    }
+
+    // ---- serde round trip (value path is asserted; the text path too unless serde_json's own
+    //      recursion limit of the text deserializer is what refuses)
+    st.count("oracle_serde_roundtrip");
+    let v = guard("serde:to_value", text, origin, st, || serde_json::to_value(cmd));
+    let mut ast_hash = 0u64;
+    match v {
+        Some(Ok(v)) => {
+            let s = v.to_string();
+            ast_hash = fnv_str(&s);
+            match guard("serde:from_value", text, origin, st, || serde_json::from_value::<Command>(v.clone())) {
+                Some(Ok(back)) => {
+                    if &back != cmd {
+                        st.violation("C15/serde-roundtrip/value-differs", json!({"origin": origin, "input": head(text), "json": head(&s)}));
+                    } else {
+                        if let Some(Ok(v2)) = guard("serde:to_value", text, origin, st, || serde_json::to_value(&back)) {
+                            if v2 != v {
+                                st.violation("C15/serde-roundtrip/reencode-differs", json!({"origin": origin, "input": head(text)}));
+                            }
+                        }
+                        if let Some(Err(e)) = guard("validate_command", text, origin, st, || validate_command(&back)) {
+                            st.violation(
+                                "C15/serde-roundtrip/decoded-tree-refused",
+                                json!({"origin": origin, "input": head(text), "error": err_key(&e)}),
+                            );
+                        }
+                    }
+                }
+                Some(Err(e)) => st.violation(
+                    "C15/serde-roundtrip/decode-fails",
+                    json!({"origin": origin, "input": head(text), "json": head(&s), "error": e.to_string()}),
+                ),
+                None => {}
+            }
+            match guard("serde:from_str", text, origin, st, || serde_json::from_str::<Command>(&s)) {
+                Some(Ok(back)) => {
+                    st.count("serde_text_roundtrips");
+                    if &back != cmd {
+                        st.violation("C15/serde-roundtrip/text-differs", json!({"origin": origin, "input": head(text), "json": head(&s)}));
+                    }
+                }
+                Some(Err(e)) if e.to_string().contains("recursion limit") => st.count("serde_text_decoder_recursion_limit_hit"),
+                Some(Err(e)) => st.violation(
+                    "C15/serde-roundtrip/text-decode-fails",
+                    json!({"origin": origin, "input": head(text), "json": head(&s), "error": e.to_string()}),
+                ),
+                None => {}
+            }
+        }
+        Some(Err(e)) => st.violation("C15/serde-roundtrip/encode-fails", json!({"origin": origin, "input": head(text), "error": e.to_string()})),
+        None => {}
+    }
+
+    // ---- evidence: which families / how many distinct trees
+    let fams = families(cmd);
+    for f in &fams {
+        st.count(&format!("fam:{f}"));
+    }
+    for m in major(cmd) {
+        st.set(&format!("distinct_ast:{m}"), ast_hash);
+    }
+    st.set("distinct_accepted_asts", ast_hash);
+    if fams.len() >= 12 {
+        st.distinct(ast_hash);
+    }
+
+    // ---- the whole input is consumed
+    st.count("oracle_whole_input_consumed");
+    let mut strays: Vec<(&str, bool)> = vec![(";", true)];
+    strays.push((*rng.pick(NEVER_LEGAL), true));
+    strays.push((*rng.pick(MAYBE_LEGAL), false));
+    for (tok, never) in strays {
+        let t2 = format!("{text}\n{tok}");
+        if t2.len() > MAX_KIP_INPUT_LEN {
+            continue;
+        }
+        let Some(r) = guard("parse_kip:stray", &t2, origin, st, || parse_kip(&t2)) else { continue };
+        match r {
+            Ok(c2) if &c2 == cmd => {
+                st.violation("C15/trailing-token-ignored", json!({"origin": origin, "input": head(&t2), "appended": tok}));
+            }
+            Ok(_) if never => {
+                st.violation("C15/illegal-trailing-token-accepted", json!({"origin": origin, "input": head(&t2), "appended": tok}));
+            }
+            Ok(_) => st.count("stray_token_changed_the_command"),
+            Err(_) => st.count("stray_token_refused"),
+        }
+    }
+
+    // ---- metamorphic variants
+    let lexed = lex::lex(text);
+    if lexed.source() != text {
+        st.inconclusive("harness tokenizer does not reproduce its input");
+        return;
+    }
+    for v in Variant::ALL {
+        let (vt, changed) = lexed.render(v, rng);
+        if changed == 0 || vt.len() > MAX_KIP_INPUT_LEN || vt == text {
+            continue;
+        }
+        st.count(&format!("oracle_metamorphic:{}", v.name()));
+        st.add(&format!("metamorphic_places_changed:{}", v.name()), changed as u64);
+        let Some(r) = guard("parse_kip:variant", &vt, origin, st, || parse_kip(&vt)) else { continue };
+        match r {
+            Ok(c2) if &c2 == cmd => {}
+            Ok(_) => st.violation(
+                format!("C15/metamorphic/{}/different-command", v.name()),
+                json!({"origin": origin, "base": head(text), "variant": head(&vt)}),
+            ),
+            Err(e) => st.violation(
+                format!("C15/metamorphic/{}/refused", v.name()),
+                json!({"origin": origin, "base": head(text), "variant": head(&vt), "error": err_key(&e)}),
+            ),
+        }
+    }
+    // measured, not asserted: a separator between a predicate and its hop quantifier
+    if text.contains("\"{") {
+        st.count("measured:inputs_with_glued_quantifier");
+    }
+}
+
+// ---------------------------------------------------------------------------------------------
+// sections (child side)
+
+static CORPUS: OnceLock<Vec<Item>> = OnceLock::new();
+
+fn corpus_items(st: &mut Stats) -> &'static [Item] {
+    CORPUS.get_or_init(|| {
+        let mut missing = vec![];
+        let items = corpus::load(&mut missing);
+        for m in missing {
+            st.inconclusive(format!("corpus source unreadable: {m}"));
+        }
+        items
+    })
+}
+
+fn corpus_case(idx: u64, rng: &mut Rng, st: &mut Stats) {
+    let items = corpus_items(st);
+    if items.is_empty() {
+        st.inconclusive("corpus is empty");
+        return;
+    }
+    let item = &items[(idx as usize) % items.len()];
+    let first_round = (idx as usize) < items.len();
+    let origin = "corpus";
+    let c = check_input(&item.text, origin, Expect::Nothing, rng, st);
+    if first_round {
+        let src = item.source.split(':').take(2).collect::<Vec<_>>().join(":");
+        st.count(&format!("corpus_items:{src}"));
+        st.count("corpus_items");
+        if c.accepted.is_some() {
+            st.count("corpus_items_accepted");
+            st.count(&format!("corpus_items_accepted:{src}"));
+        }
+    }
+    // token-level mutations
+    let base = lex::lex(&item.text);
+    for _ in 0..4 {
+        let donor = lex::lex(&rng.pick(items).text);
+        let (m, used) = mutate::mutate(&base, &donor, rng);
+        for u in used {
+            st.count(&format!("mutator:{u}"));
+        }
+        let c = check_input(&m, "corpus-mutant", Expect::Nothing, rng, st);
+        if c.accepted.is_some() && m != item.text {
+            st.sample(|| json!({"kind": "accepted mutant of a corpus item", "text": head(&m)}));
+        }
+    }
+}
+
+/// Cross-check of the tokenizer against the generator's own token kinds.
+fn check_lexer_against_generator(toks: &[generate::GTok], text: &str, st: &mut Stats) {
+    let l = lex::lex(text);
+    if l.tokens.len() != toks.len() || l.tokens.iter().zip(toks).any(|(a, b)| a.text != b.text) {
+        st.inconclusive("harness tokenizer splits a generated sentence differently from the generator");
+        st.sample(|| json!({"kind": "tokenizer/generator mismatch", "text": head(text)}));
+        return;
+    }
+    st.count("tokenizer_checked_against_generator");
+    for (i, g) in toks.iter().enumerate() {
+        if l.flippable(i) {
+            st.count("tokens_judged_case_insensitive");
+            if !matches!(g.kind, GK::Kw | GK::Func) {
+                st.inconclusive(format!("harness tokenizer would flip the case of a non-keyword ({:?} {})", g.kind, g.text));
+            }
+        } else if matches!(g.kind, GK::Kw | GK::Func) {
+            st.count("keyword_tokens_conservatively_not_flipped");
+        }
+    }
+}
+
+fn gen_case(idx: u64, rng: &mut Rng, st: &mut Stats) {
+    let surface = (idx % 4) as usize;
+    let mode = rng.below(24);
+    let (toks, reached) = {
+        let mut g = Gen::new(rng);
+        match mode {
+            0 | 1 => {
+                // one path drilled towards / beyond the nesting limit
+                g.drill = *g.rng.pick(&[12usize, 24, 40, 52, 58, 60, 61, 62, 63, 64, 65, 66, 70, 90]);
+            }
+            2 => {
+                g.scale = 4 + g.rng.usize(30);
+                g.fuel = 3000 + g.rng.below(20000) as i64;
+                g.soft_depth = 5;
+            }
+            3 => {
+                g.soft_depth = 12;
+                g.fuel = 1500;
+            }
+            _ => {}
+        }
+        match surface {
+            0 => g.kql(),
+            1 => g.kml(),
+            2 => g.meta(),
+            _ => {
+                if g.rng.chance(1, 3) {
+                    g.json()
+                } else {
+                    // META with a selection block / the selecting KML statements
+                    if g.rng.bool() {
+                        g.meta_family(45)
+                    } else {
+                        let own = "h".to_string();
+                        let f = 7 + g.rng.usize(10);
+                        g.kml_statement(f, &own, &[])
+                    }
+                }
+            }
+        }
+        (g.t, g.reached)
+    };
+    let text = generate::render(&toks);
+    st.max("max_generated_bracket_depth", reached as u64);
+    st.max("max_generated_len", text.len() as u64);
+    st.count(&format!("generated:{}", ["kql", "kml", "meta", "mixed"][surface]));
+    let lexed = lex::lex(&text);
+    let (depth, balanced) = lexed.bracket_depth();
+    if !balanced || depth != reached {
+        st.inconclusive(format!("generator and tokenizer disagree on the bracket depth ({reached} vs {depth}, balanced {balanced})"));
+        st.sample(|| json!({"kind": "depth mismatch", "text": head(&text)}));
+        return;
+    }
+    let expect = if depth > MAX_KIP_NESTING_DEPTH {
+        st.count("generated_beyond_nesting_limit");
+        Expect::Refused
+    } else {
+        if depth >= MAX_KIP_NESTING_DEPTH - 4 {
+            st.count("generated_within_4_of_nesting_limit");
+        }
+        Expect::Nothing
+    };
+    check_lexer_against_generator(&toks, &text, st);
+    let c = check_input(&text, "generated", expect, rng, st);
+    if let Some(_cmd) = &c.accepted {
+        st.max("max_accepted_bracket_depth", depth as u64);
+        st.count(&format!("generated_accepted:{}", ["kql", "kml", "meta", "mixed"][surface]));
+        st.sample(|| json!({"kind": "accepted generated sentence", "depth": depth, "text": head(&text)}));
+    } else if expect == Expect::Nothing {
+        st.count("generated_rejected_within_limits");
+    }
+    // token-level mutations of the sentence
+    let n_mut = if text.len() > 20000 { 1 } else { 3 };
+    for _ in 0..n_mut {
+        let donor = {
+            let t = generate::sentence(rng, rng_surface(idx));
+            lex::lex(&generate::render(&t))
+        };
+        let (m, used) = mutate::mutate(&lexed, &donor, rng);
+        for u in used {
+            st.count(&format!("mutator:{u}"));
+        }
+        check_input(&m, "generated-mutant", Expect::Nothing, rng, st);
+    }
+}
+
+fn rng_surface(idx: u64) -> usize {
+    ((idx / 4) % 3) as usize
+}
+
+fn noise_case(_idx: u64, rng: &mut Rng, st: &mut Stats) {
+    let pools: [&[char]; 4] = [
+        &['a', 'Z', '_', '0', '9', ' ', '\n', '\t', '?', ':', '"', '\\', '/', '(', ')', '{', '}', '[', ']', ',', '|', '&', '!', '=', '<', '>', '-', '.', '+', 'e', 'E'],
+        &['\u{0}', '\u{1}', '\u{7f}', '\u{80}', '\u{a0}', '\u{85}', '\u{2028}', '\u{2029}', '\u{feff}', '\u{200b}', '\u{3000}', '\r'],
+        &['é', 'ß', 'Ω', 'ж', '中', '文', '🦀', '😀', '\u{10ffff}', '\u{e000}', '\u{fffd}', '\u{301}', 'İ', 'ı', 'ǅ', 'ﬁ', '١', '²'],
+        &['F', 'I', 'N', 'D', 'f', 'i', 'n', 'd', 'W', 'H', 'E', 'R', 'w', 'h', 'e', 'r'],
+    ];
+    // 1. unicode strings
+    for _ in 0..3 {
+        let n = rng.usize(120);
+        let mut s = String::new();
+        for _ in 0..n {
+            let p = pools[rng.weighted(&[6, 1, 2, 2])];
+            s.push(*rng.pick(p));
+        }
+        check_input(&s, "noise-unicode", Expect::Nothing, rng, st);
+    }
+    // 2. byte noise, made valid UTF-8
+    let n = rng.usize(200);
+    let s = String::from_utf8_lossy(&rng.bytes(n)).to_string();
+    check_input(&s, "noise-bytes", Expect::Nothing, rng, st);
+    // 3. arbitrary scalar values
+    let n = rng.usize(60);
+    let s: String = (0..n).filter_map(|_| char::from_u32(rng.below(0x110000) as u32)).collect();
+    check_input(&s, "noise-scalars", Expect::Nothing, rng, st);
+    // 4. keyword soup
+    for _ in 0..3 {
+        let n = 1 + rng.usize(25);
+        let mut s = String::new();
+        for _ in 0..n {
+            match rng.below(6) {
+                0 | 1 => s.push_str(*rng.pick(lex::KEYWORDS)),
+                2 => s.push_str(*rng.pick(mutate::SPLICES)),
+                3 => s.push_str(*rng.pick(&["?x", ":p", "\"s\"", "1", "?x.a", "true", "null", "{", "}", "(", ")", ","])),
+                4 => s.push_str(*rng.pick(lex::FUNCTIONS)),
+                _ => s.push_str(*rng.pick(mutate::HOSTILE_STRINGS)),
+            }
+            s.push_str(if rng.chance(1, 8) { "" } else { *rng.pick(lex::TRIVIA) });
+        }
+        check_input(&s, "noise-keyword-soup", Expect::Nothing, rng, st);
+    }
+    // 5. a valid prefix followed by noise
+    let surface = rng.usize(3);
+    let t = generate::render(&generate::sentence(rng, surface));
+    let chars: Vec<char> = t.chars().collect();
+    let cut = rng.usize(chars.len() + 1);
+    let mut s: String = chars[..cut].iter().collect();
+    let extra = rng.usize(6);
+    for _ in 0..extra {
+        let pi = rng.usize(3);
+        s.push(*rng.pick(pools[pi]));
+    }
+    check_input(&s, "noise-valid-prefix", Expect::Nothing, rng, st);
+}
+
+// ---------------------------------------------------------------------------------------------
+// limits: exact depths and lengths around the documented bounds
+
+const DEPTHS: &[usize] = &[1, 2, 3, 31, 32, 33, 59, 60, 61, 62, 63, 64, 65, 66, 67, 70, 100, 128, 1000, 5000, 50000, 131072];
+const N_KINDS: usize = 33;
+
+fn rep(s: &str, n: usize) -> String {
+    s.repeat(n)
+}
+
+/// (name, text, decoy): `decoy` = the brackets are inside a string / comment and must not count.
+fn nest(kind: usize, d: usize) -> (&'static str, String, bool) {
+    let k = |base: usize| d.saturating_sub(base);
+    match kind {
+        0 => ("filter-group", format!("FIND(?x) WHERE {{ FILTER({}?x.a == 1{}) }}", rep("(", k(2)), rep(")", k(2))), false),
+        1 => ("filter-operand-paren", format!("FIND(?x) WHERE {{ FILTER({}?x.a{} == 1) }}", rep("(", k(2)), rep(")", k(2))), false),
+        2 => ("filter-list", format!("FIND(?x) WHERE {{ FILTER(IN(?x.a, {}1{})) }}", rep("[", k(3)), rep("]", k(3))), false),
+        3 => ("not-blocks", format!("FIND(?x) WHERE {}{{ ?x {{type: \"T\"}} }}{}", rep("{ NOT ", k(2)), rep(" }", k(2))), false),
+        4 => (
+            "optional-union-blocks",
+            format!("FIND(?x) WHERE {}{{ ?x {{type: \"T\"}} }}{}", rep("{ OPTIONAL { UNION ", k(2) / 2), rep(" } }", k(2) / 2)),
+            false,
+        ),
+        5 => ("match-array", format!("FIND(?x) WHERE {{ ?x {{a: {}1{}}} }}", rep("[", k(2)), rep("]", k(2))), false),
+        6 => ("match-object", format!("FIND(?x) WHERE {{ ?x {}1{} }}", rep("{a: ", k(1)), rep("}", k(1))), false),
+        7 => ("object-tuple", format!("FIND(?x) WHERE {{ {}?o{} }}", rep("(?s, \"p\", ", k(1)), rep(")", k(1))), false),
+        8 => ("subject-tuple", format!("FIND(?x) WHERE {{ {}?s{} }}", rep("(", k(1)), rep(", \"p\", ?o)", k(1))), false),
+        9 => ("kml-value-array", format!("UPDATE :x SET ATTRIBUTES {{ a: {}1{} }}", rep("[", k(1)), rep("]", k(1))), false),
+        10 => ("kml-value-object", format!("UPDATE :x SET ATTRIBUTES {}1{}", rep("{ a: ", d), rep(" }", d)), false),
+        11 => ("update-expr", format!("UPDATE :x SET ATTRIBUTES {{ a: {}1{} }}", rep("ADD(", k(1)), rep(", 1)", k(1))), false),
+        12 => ("ensure-nested-tuple", format!("ENSURE PROPOSITION {}:o{}", rep("(:s, \"p\", ", d), rep(")", d)), false),
+        13 => ("meta-with-object", format!("DESCRIBE ACCESS WITH {}1{}", rep("{a: ", d), rep("}", d)), false),
+        14 => (
+            "export-where-blocks",
+            format!("EXPORT CAPSULE :r WHERE {}{{ ?c {{type: \"T\"}} }}{}", rep("{ ?c {type: \"T\"} OPTIONAL ", k(2)), rep(" }", k(2))),
+            false,
+        ),
+        15 => ("json-array", format!("{}{}", rep("[", d), rep("]", d)), false),
+        16 => ("json-object", format!("{}1{}", rep("{a:", d), rep("}", d)), false),
+        17 => {
+            let opens: String = (0..d).map(|i| ['(', '[', '{'][i % 3]).collect();
+            let closes: String = (0..d).rev().map(|i| [')', ']', '}'][i % 3]).collect();
+            ("mixed-brackets", format!("{opens}{closes}"), false)
+        }
+        18 => ("open-only", rep("(", d), false),
+        19 => ("string-decoy", format!("DESCRIBE TYPE \"{}\"", rep("(", d)), true),
+        20 => ("comment-decoy", format!("// {}\nDESCRIBE PROTOCOL", rep("{", d)), true),
+        21 => ("comment-quote-then-deep", format!("// \"\n{}", rep("(", d)), false),
+        22 => ("string-with-slashes-then-deep", format!("DESCRIBE TYPE \"a//b\" {}", rep("(", d)), false),
+        23 => ("escaped-quote-then-deep", format!("DESCRIBE TYPE \"a\\\"\" {}", rep("[", d)), false),
+        24 => ("not-operator-chain", format!("FIND(?x) WHERE {{ FILTER({}IS_NULL(?x.a)) }}", rep("!", d)), false),
+        25 => ("minus-chain", format!("FIND(?x) WHERE {{ FILTER({}?x.a == 1) }}", rep("-", d)), false),
+        26 => ("and-chain", format!("FIND(?x) WHERE {{ FILTER({}?x.a == 1) }}", rep("?x.a == 1 && ", d)), false),
+        27 => ("or-chain", format!("FIND(?x) WHERE {{ FILTER({}?x.a == 1) }}", rep("?x.a == 1 || ", d)), false),
+        28 => (
+            "blocks-plus-operator-chain",
+            format!(
+                "FIND(?x) WHERE {}{{ FILTER({}IS_NULL({}?x.a)) }}{}",
+                rep("{ NOT ", 60),
+                rep("!", d.min(70)),
+                rep("-", d.min(70) / 2),
+                rep(" }", 60)
+            ),
+            false,
+        ),
+        29 => ("key-steps", format!("FIND(?x{}) WHERE {{ ?x {{type: \"T\"}} }}", rep("[\"k\"]", d)), false),
+        30 => ("alternation-with-quantifiers", format!("FIND(?x) WHERE {{ (?x, {}\"p\", ?y) }}", rep("\"p\"{0,1} | ", d)), false),
+        31 => (
+            "late-deep-tail",
+            format!("FIND(?x) WHERE {{ {} FILTER({}?x.a == 1{}) }}", rep("?v {type: \"T\"} ", 3000), rep("(", k(2)), rep(")", k(2))),
+            false,
+        ),
+        _ => ("assign-nested-value", format!("CREATE CONCEPT ?c {{ TYPE \"T\" SET ATTRIBUTES {{ a: {}:p{} }} }}", rep("[", k(2)), rep("]", k(2))), false),
+    }
+}
+
+fn length_case(i: usize) -> (&'static str, String) {
+    let lens = [MAX_KIP_INPUT_LEN - 1, MAX_KIP_INPUT_LEN, MAX_KIP_INPUT_LEN + 1, MAX_KIP_INPUT_LEN + 2, 2 * MAX_KIP_INPUT_LEN, 4 * MAX_KIP_INPUT_LEN + 1];
+    let target = lens[i % lens.len()];
+    match i / lens.len() {
+        0 => {
+            let base = "DESCRIBE PROTOCOL";
+            ("pad-spaces", format!("{base}{}", rep(" ", target - base.len())))
+        }
+        1 => {
+            let base = "DESCRIBE PROTOCOL //";
+            ("pad-comment", format!("{base}{}", rep("x", target - base.len())))
+        }
+        2 => {
+            let base = "DESCRIBE TYPE \"\"";
+            ("pad-string", format!("DESCRIBE TYPE \"{}\"", rep("s", target - base.len())))
+        }
+        3 => {
+            // multi-byte padding: the limit is in bytes
+            let base = "DESCRIBE TYPE \"\"";
+            let n = (target - base.len()) / 3;
+            let fill = target - base.len() - 3 * n;
+            ("pad-multibyte", format!("DESCRIBE TYPE \"{}{}\"", rep("€", n), rep("s", fill)))
+        }
+        _ => {
+            let base = "\n\n";
+            ("pad-leading-newlines", format!("{}DESCRIBE PROTOCOL{base}", rep("\n", target - 17 - base.len())))
+        }
+    }
+}
+
+const N_LENGTH_CASES: usize = 30;
+
+fn limits_cases() -> u64 {
+    (N_KINDS * DEPTHS.len() + N_LENGTH_CASES) as u64
+}
+
+fn limits_case(idx: u64, rng: &mut Rng, st: &mut Stats) {
+    let idx = idx as usize;
+    if idx >= N_KINDS * DEPTHS.len() {
+        let (name, text) = length_case(idx - N_KINDS * DEPTHS.len());
+        st.count(&format!("limit_kind:{name}"));
+        let over = text.len() > MAX_KIP_INPUT_LEN;
+        st.count(if over { "length_cases_over_limit" } else { "length_cases_at_or_below_limit" });
+        let a0 = allocs();
+        let r = guard("parse_kip", &text, "limits-length", st, || parse_kip(&text));
+        let used = allocs() - a0;
+        if over {
+            st.max("max_allocations_while_refusing_overlong_input", used);
+            st.count("oracle_refusal_is_cheap");
+            if matches!(r, Some(Err(_))) && used > 64 {
+                st.violation(
+                    "C15/refusal-after-work/length",
+                    json!({"kind": name, "input_len": text.len(), "allocations": used, "bound": 64}),
+                );
+            }
+        }
+        check_input(&text, "limits-length", if over { Expect::Refused } else { Expect::Accepted }, rng, st);
+        return;
+    }
+    let d = DEPTHS[idx % DEPTHS.len()];
+    let (name, text, decoy) = nest(idx / DEPTHS.len(), d);
+    st.count(&format!("limit_kind:{name}"));
+    let lexed: Lexed = lex::lex(&text);
+    let (depth, _) = lexed.bracket_depth();
+    let over_len = text.len() > MAX_KIP_INPUT_LEN;
+    let over_depth = depth > MAX_KIP_NESTING_DEPTH;
+    if decoy && depth != 0 {
+        st.inconclusive("harness tokenizer counts brackets inside a string or comment");
+        return;
+    }
+    let expect = if over_len || over_depth {
+        Expect::Refused
+    } else if decoy {
+        Expect::Accepted
+    } else {
+        Expect::Nothing
+    };
+    if over_depth {
+        st.count("nesting_cases_over_limit");
+        if depth <= MAX_KIP_NESTING_DEPTH + 3 {
+            st.count("nesting_cases_just_over_limit");
+        }
+    } else {
+        st.count("nesting_cases_at_or_below_limit");
+        if depth + 3 >= MAX_KIP_NESTING_DEPTH {
+            st.count("nesting_cases_just_below_limit");
+        }
+    }
+    if expect == Expect::Refused {
+        let a0 = allocs();
+        let r = guard("parse_kip", &text, "limits-nesting", st, || parse_kip(&text));
+        let used = allocs() - a0;
+        st.max("max_allocations_while_refusing_overdeep_input", used);
+        st.count("oracle_refusal_is_cheap");
+        if matches!(r, Some(Err(_))) && used > 64 {
+            st.violation(
+                format!("C15/refusal-after-work/nesting/{name}"),
+                json!({"kind": name, "depth": depth, "input_len": text.len(), "allocations": used, "bound": 64}),
+            );
+        }
+    }
+    let c = check_input(&text, "limits-nesting", expect, rng, st);
+    if c.accepted.is_some() {
+        st.max("max_accepted_bracket_depth", depth as u64);
+        st.count("limit_cases_accepted");
+        if depth == MAX_KIP_NESTING_DEPTH {
+            st.count("accepted_at_exactly_the_nesting_limit");
+        }
+    }
+}
+
+// ---------------------------------------------------------------------------------------------
+// bounded work: pathological generators at doubling sizes
+
+const SCALING: &[&str] = &[
+    "mutate-many-handles",
+    "mutate-many-asserts",
+    "mutate-handle-references",
+    "where-many-patterns",
+    "where-many-filters",
+    "filter-64-term-chains",
+    "filter-deep-groups-repeated",
+    "filter-deep-operand-parens-repeated",
+    "matcher-many-keys",
+    "assignments-many-keys",
+    "unset-many-fields",
+    "value-long-array",
+    "value-nested-arrays-repeated",
+    "string-long-with-escapes",
+    "comment-long",
+    "comments-between-all-tokens",
+    "alternation-wide",
+    "dot-path-long",
+    "find-many-projections",
+    "order-by-many",
+    "error-at-the-end",
+    "unclosed-block-at-the-end",
+    "keyword-soup",
+    "not-blocks-64-deep-repeated",
+    "structural-many-edges",
+    "json-many-keys",
+    "json-long-array",
+    "open-brackets-noise",
+    "quotes-noise",
+];
+
+fn ident36(mut n: usize) -> String {
+    let abc = b"abcdefghijklmnopqrstuvwxyz0123456789_";
+    let mut s = vec![b'a' + (n % 26) as u8];
+    n /= 26;
+    while n > 0 {
+        s.push(abc[n % abc.len()]);
+        n /= abc.len();
+    }
+    String::from_utf8(s).unwrap()
+}
+
+/// Builds `prefix + unit(i)* + suffix` as close to `len` bytes as possible without exceeding it.
+fn fill(len: usize, prefix: &str, suffix: &str, mut unit: impl FnMut(usize) -> String) -> String {
+    let mut s = String::with_capacity(len);
+    s.push_str(prefix);
+    let mut i = 0;
+    loop {
+        let u = unit(i);
+        if s.len() + u.len() + suffix.len() > len {
+            break;
+        }
+        s.push_str(&u);
+        i += 1;
+    }
+    s.push_str(suffix);
+    s
+}
+
+fn scaling_input(family: &str, len: usize) -> (String, &'static str) {
+    let kip = "parse_kip";
+    match family {
+        "mutate-many-handles" => (fill(len, "MUTATE{", "}", |i| format!("CREATE CONCEPT ?{}{{}}", ident36(i))), kip),
+        "mutate-many-asserts" => (fill(len, "MUTATE{", "}", |_| "ASSERT(:a,\"p\",:b){by::a,mode:\"s\"}".to_string()), kip),
+        "mutate-handle-references" => {
+            let n = len / 90;
+            (
+                fill(len, "MUTATE{", "}", |i| {
+                    format!(
+                        "CREATE CONCEPT ?{}{{SET STRUCTURAL{{(\"f\",?{})(\"f\",?{})(\"f\",?{})}}}}",
+                        ident36(i),
+                        ident36((i + 1) % n.max(1)),
+                        ident36((i * 7 + 3) % n.max(1)),
+                        ident36(i / 2)
+                    )
+                }),
+                kip,
+            )
+        }
+        "where-many-patterns" => (fill(len, "FIND(?x) WHERE {", "}", |i| format!("?{}{{type:\"T\"}}", ident36(i))), kip),
+        "where-many-filters" => (fill(len, "FIND(?x) WHERE {", "}", |_| "FILTER(?x.a==1)".to_string()), kip),
+        "filter-64-term-chains" => (
+            fill(len, "FIND(?x) WHERE {", "}", |_| format!("FILTER({}?x.a==1)", rep("?x.a==1&&", 63))),
+            kip,
+        ),
+        "filter-deep-groups-repeated" => (
+            fill(len, "FIND(?x) WHERE {", "}", |_| format!("FILTER({}?x.a==1{})", rep("(", 60), rep(")", 60))),
+            kip,
+        ),
+        "filter-deep-operand-parens-repeated" => (
+            fill(len, "FIND(?x) WHERE {", "}", |_| format!("FILTER({}?x.a{}==1)", rep("(", 60), rep(")", 60))),
+            kip,
+        ),
+        "matcher-many-keys" => (fill(len, "FIND(?x) WHERE {?x{", "}}", |i| format!("{}:1,", ident36(i))), kip),
+        "assignments-many-keys" => (fill(len, "UPDATE :x SET ATTRIBUTES{", "}", |i| format!("{}:1,", ident36(i))), kip),
+        "unset-many-fields" => (fill(len, "UPDATE :x UNSET ATTRIBUTES{", "}", |i| format!("{},", ident36(i))), kip),
+        "value-long-array" => (fill(len, "UPDATE :x SET ATTRIBUTES{a:[", "]}", |_| "1,".to_string()), kip),
+        "value-nested-arrays-repeated" => (
+            fill(len, "UPDATE :x SET ATTRIBUTES{a:[", "]}", |_| format!("{}:p{},", rep("[", 60), rep("]", 60))),
+            kip,
+        ),
+        "string-long-with-escapes" => (fill(len, "DESCRIBE TYPE \"", "\"", |_| "a\\\"\\u00e9\\\\//(".to_string()), kip),
+        "comment-long" => (fill(len, "DESCRIBE PROTOCOL //", "", |_| "\" ( { [ x".to_string()), kip),
+        "comments-between-all-tokens" => (
+            fill(len, "FIND(?x) WHERE {", "}", |_| "//c\n?v//c\n{//c\ntype//c\n://c\n\"T\"//c\n}//c\n".to_string()),
+            kip,
+        ),
+        "alternation-wide" => (fill(len, "FIND(?x) WHERE {(?x,", "\"p\",?y)}", |_| "\"p\"{0,2}|".to_string()), kip),
+        "dot-path-long" => (fill(len, "FIND(?x", ") WHERE {}", |i| if i % 2 == 0 { ".a".to_string() } else { "[\"k\"]".to_string() }), kip),
+        "find-many-projections" => (fill(len, "FIND(", "?x) WHERE {}", |_| "COUNT(DISTINCT ?x.a),".to_string()), kip),
+        "order-by-many" => (fill(len, "FIND(?x) WHERE {} ORDER BY ", "?x", |_| "?x.a DESC,".to_string()), kip),
+        "error-at-the-end" => (fill(len, "FIND(?x) WHERE {", "} LIMIT LIMIT", |i| format!("?{}{{type:\"T\"}}\n", ident36(i))), kip),
+        "unclosed-block-at-the-end" => (fill(len, "FIND(?x) WHERE {", "NOT { NOT { NOT { (?a, \"p\"", |_| "?v{type:\"T\"}\n".to_string()), kip),
+        "keyword-soup" => (fill(len, "", "", |i| format!("{} ", lex::KEYWORDS[i % lex::KEYWORDS.len()])), kip),
+        "not-blocks-64-deep-repeated" => (
+            fill(len, "FIND(?x) WHERE {", "}", |_| format!("{}?x{{type:\"T\"}}{}", rep("NOT{", 62), rep("}", 62))),
+            kip,
+        ),
+        "structural-many-edges" => (
+            fill(len, "MUTATE{CREATE CONCEPT ?h{TYPE \"T\"} CREATE CONCEPT ?c{SET STRUCTURAL{", "}}}", |_| "(\"f\",?h){index:1}".to_string()),
+            kip,
+        ),
+        "json-many-keys" => (fill(len, "{", "}", |i| format!("{}:1,", ident36(i))), "parse_json"),
+        "json-long-array" => (fill(len, "[", "]", |_| "[1,{a:null}],".to_string()), "parse_json"),
+        "open-brackets-noise" => (fill(len, "", "", |_| "(]{)[}".to_string()), kip),
+        _ => (fill(len, "", "", |_| "\"\\\" \"".to_string()), kip),
+    }
+}
+
+const WORK_BOUND_S: f64 = 5.0;
+
+struct Measured {
+    cpu_s: f64,
+    wall_s: f64,
+    accepted: Option<bool>,
+    cpu_clock: bool,
+    /// the measurement was given up at the cap; the parse is still running
+    capped: bool,
+}
+
+/// One parse on its own small-stack thread; the caller polls the thread's CPU time and gives up
+/// at `cap_s` (the runaway thread dies with the child process).
+fn measure(text: &str, which: &'static str, stack_kib: u64, cap_s: f64, st: &mut Stats) -> Measured {
+    use std::sync::mpsc;
+    trace(which, text);
+    let (tx_tid, rx_tid) = mpsc::channel::<std::path::PathBuf>();
+    let (tx_done, rx_done) = mpsc::channel::<(Result<bool, String>, u64, bool)>();
+    let input = text.to_string();
+    let w0 = std::time::Instant::now();
+    let spawned = std::thread::Builder::new().stack_size((stack_kib as usize) << 10).spawn(move || {
+        let _ = tx_tid.send(std::fs::read_link("/proc/thread-self").unwrap_or_default());
+        let (t0, c0) = proc::thread_cpu_ns();
+        let r = std::panic::catch_unwind(|| match which {
+            "parse_json" => parse_json(&input).is_ok(),
+            _ => parse_kip(&input).is_ok(),
+        })
+        .map_err(|p| format!("{} at {}", vcore::run::panic_message(&p), short_loc(&vcore::run::take_last_panic_location())));
+        let (t1, c1) = proc::thread_cpu_ns();
+        let _ = tx_done.send((r, t1 - t0, c0 && c1));
+    });
+    if spawned.is_err() {
+        st.inconclusive("cannot spawn the measuring thread");
+        return Measured { cpu_s: 0.0, wall_s: 0.0, accepted: None, cpu_clock: false, capped: false };
+    }
+    let task = rx_tid.recv().ok().map(|p| std::path::Path::new("/proc").join(p).join("schedstat"));
+    loop {
+        match rx_done.recv_timeout(Duration::from_millis(20)) {
+            Ok((r, ns, clk)) => {
+                let accepted = match r {
+                    Ok(b) => Some(b),
+                    Err(p) => {
+                        st.violation(format!("C15/panic/{which}/scaling"), json!({"stage": which, "panic": p, "input_len": text.len(), "input": head(text)}));
+                        None
+                    }
+                };
+                return Measured { cpu_s: ns as f64 / 1e9, wall_s: w0.elapsed().as_secs_f64(), accepted, cpu_clock: clk, capped: false };
+            }
+            Err(mpsc::RecvTimeoutError::Timeout) => {
+                let cpu = task
+                    .as_ref()
+                    .and_then(|p| std::fs::read_to_string(p).ok())
+                    .and_then(|t| t.split_whitespace().next().and_then(|x| x.parse::<u64>().ok()));
+                let (used, clk) = match cpu {
+                    Some(ns) => (ns as f64 / 1e9, true),
+                    None => (w0.elapsed().as_secs_f64(), false),
+                };
+                if used > cap_s {
+                    return Measured { cpu_s: used, wall_s: w0.elapsed().as_secs_f64(), accepted: None, cpu_clock: clk, capped: true };
+                }
+            }
+            Err(mpsc::RecvTimeoutError::Disconnected) => {
+                st.inconclusive("measuring thread vanished");
+                return Measured { cpu_s: 0.0, wall_s: 0.0, accepted: None, cpu_clock: false, capped: false };
+            }
+        }
+    }
+}
+
+fn scaling_case(spec: &ChildSpec, idx: u64, st: &mut Stats) {
+    let family = SCALING[idx as usize % SCALING.len()];
+    let sizes: Vec<usize> = if spec.tier == "quick" {
+        vec![MAX_KIP_INPUT_LEN / 4, MAX_KIP_INPUT_LEN / 2, MAX_KIP_INPUT_LEN]
+    } else {
+        vec![MAX_KIP_INPUT_LEN / 16, MAX_KIP_INPUT_LEN / 8, MAX_KIP_INPUT_LEN / 4, MAX_KIP_INPUT_LEN / 2, MAX_KIP_INPUT_LEN]
+    };
+    let mut times = vec![];
+    let mut measured_sizes = vec![];
+    let mut cpu_clock = true;
+    let mut last = json!(null);
+    let mut over = false;
+    let mut capped = false;
+    let quick = spec.tier == "quick";
+    // quick tier: a measurement is given up once it is clearly (1.5x) over the bound
+    let cap_s = if quick { 2.1 * WORK_BOUND_S } else { 12.0 * WORK_BOUND_S };
+    for len in &sizes {
+        let (text, which) = scaling_input(family, *len);
+        if text.len() > MAX_KIP_INPUT_LEN {
+            st.inconclusive(format!("scaling generator {family} overshot the legal length"));
+            return;
+        }
+        let mut m = measure(&text, which, spec.stack_kib, cap_s, st);
+        st.count("scaling_measurements");
+        // a measurement just over the bound is repeated (machine load), the minimum counts
+        let mut repeats = 0;
+        while !m.capped && m.cpu_s > WORK_BOUND_S && m.cpu_s < 1.5 * WORK_BOUND_S && repeats < if quick { 1 } else { 2 } {
+            let m2 = measure(&text, which, spec.stack_kib, cap_s, st);
+            if m2.capped {
+                break;
+            }
+            if m2.cpu_s < m.cpu_s {
+                m = m2;
+            }
+            repeats += 1;
+            st.count("scaling_measurements_repeated");
+        }
+        cpu_clock &= m.cpu_clock;
+        times.push(m.cpu_s);
+        measured_sizes.push(text.len());
+        last = json!({"len": text.len(), "accepted": m.accepted, "cpu_s": m.cpu_s, "wall_s": m.wall_s,
+                      "measurement_given_up_at_cap": m.capped});
+        st.max(&format!("max_parse_ms:{family}"), (m.cpu_s * 1000.0) as u64);
+        // linear growth so far: only constant-factor noise separates the measurement from the
+        // bound, so the bound is doubled; superlinear growth: the bound itself
+        let n = times.len();
+        let superlinear = n >= 2 && times[n - 2] > 1e-4 && times[n - 1] / times[n - 2] >= 3.0;
+        let bound = if superlinear { WORK_BOUND_S } else { 2.0 * WORK_BOUND_S };
+        if m.cpu_s > bound {
+            over = true;
+            capped = m.capped;
+            break;
+        }
+        if m.capped {
+            st.inconclusive(format!("scaling measurement of {family} given up below its bound"));
+            return;
+        }
+    }
+    let n = times.len();
+    let ratio = if n >= 2 && times[n - 2] > 1e-4 { times[n - 1] / times[n - 2] } else { 0.0 };
+    st.sample(|| json!({"kind": "scaling", "family": family, "input_bytes": measured_sizes, "seconds": times, "last_doubling_ratio": ratio, "largest_measured": last}));
+    st.count("scaling_families_measured");
+    if ratio > 3.0 && times[n - 1] > 0.05 {
+        st.count(&format!("measured:superlinear_growth:{family}"));
+    }
+    st.count("oracle_bounded_work");
+    if over {
+        st.violation(
+            format!("C15/unbounded-work/{family}"),
+            json!({"family": family, "input_bytes": measured_sizes, "seconds": times, "bound_s": WORK_BOUND_S,
+                   "clock": if cpu_clock { "thread cpu time" } else { "wall" }, "last_doubling_ratio": ratio, "largest_measured": last,
+                   "legal_limit_bytes": MAX_KIP_INPUT_LEN, "still_running_when_given_up": capped,
+                   "note": "one parse of a legal input (within the documented length and nesting limits) needs more than the absolute bound"}),
+        );
+    }
+}
+
+// ---------------------------------------------------------------------------------------------
+
+fn child_case(spec: &ChildSpec, idx: u64, rng: &mut Rng, st: &mut Stats) {
+    match spec.section.as_str() {
+        "corpus" => corpus_case(idx, rng, st),
+        "gen" => gen_case(idx, rng, st),
+        "noise" => noise_case(idx, rng, st),
+        "limits" => limits_case(idx, rng, st),
+        "scaling" => scaling_case(spec, idx, st),
+        other => st.inconclusive(format!("unknown section {other}")),
+    }
+}
+
+/// Every family of the grammar that accepted inputs must reach (names from `families.rs`).
+const REQUIRED_FAMILIES: &[&str] = &[
+    "Archive:expect_state", "Archive:limit", "Archive:target.Handle", "Archive:target.Id", "Archive:target.Param",
+    "Archive:where", "Changes:limit", "CorrectEvidence.by:target.Handle", "CorrectEvidence.by:target.Id",
+    "CorrectEvidence.by:target.Param", "CorrectEvidence:expect_state", "CorrectEvidence:target.Handle",
+    "CorrectEvidence:target.Id", "CorrectEvidence:target.Param", "CreateActivity:client_key",
+    "CreateActivity:set_facets", "CreateActivity:set_fields", "CreateActivity:set_structural",
+    "CreateAssertion:client_key", "CreateAssertion:set_facets", "CreateAssertion:set_fields",
+    "CreateAssertion:set_structural", "CreateConcept:client_key", "CreateConcept:name",
+    "CreateConcept:set_attributes", "CreateConcept:set_facets", "CreateConcept:set_facets.multiple",
+    "CreateConcept:set_fields", "CreateConcept:set_structural", "CreateConcept:type", "CreateEvidence:client_key",
+    "CreateEvidence:set_facets", "CreateEvidence:set_fields", "CreateEvidence:set_structural",
+    "Describe.Access:with", "Describe.EpistemicPolicy:value", "Describe.Primer:mode",
+    "Describe.SchemaEnvironment:as_of", "Describe.Snapshot:as_of", "Describe.Space:value", "Describe.Trust:value",
+    "EnsureProposition:expect_version", "EnsureProposition:handle", "ExportCapsule:as_of", "ExportCapsule:options",
+    "ExportCapsule:target.Handle", "ExportCapsule:target.Id", "ExportCapsule:target.Param", "History:cursor",
+    "History:from_seq", "History:limit", "History:to_seq", "List:cursor", "List:limit", "List:status",
+    "MergeConcept.into:target.Handle", "MergeConcept.into:target.Id", "MergeConcept.into:target.Param",
+    "MergeConcept:expect_version", "MergeConcept:target.Handle", "MergeConcept:target.Id",
+    "MergeConcept:target.Param", "MergeConcept:where", "Purge:limit", "Purge:reference_policy",
+    "Purge:target.Handle", "Purge:target.Id", "Purge:target.Param", "Purge:where", "RetractAssertion:expect_state",
+    "RetractAssertion:limit", "RetractAssertion:target.Handle", "RetractAssertion:target.Id",
+    "RetractAssertion:target.Param", "RetractAssertion:where", "Search:as_of_seq", "Search:cursor", "Search:limit",
+    "Search:mode", "Search:threshold", "Search:with_predicate", "Search:with_type", "SetRetention:expect_version",
+    "SetRetention:limit", "SetRetention:target.Handle", "SetRetention:target.Id", "SetRetention:target.Param",
+    "SetRetention:where", "Snapshot:as_of", "SupersedeAssertion.by:target.Handle", "SupersedeAssertion.by:target.Id",
+    "SupersedeAssertion.by:target.Param", "SupersedeAssertion:expect_state", "SupersedeAssertion:target.Handle",
+    "SupersedeAssertion:target.Id", "SupersedeAssertion:target.Param", "Tombstone:expect_state", "Tombstone:limit",
+    "Tombstone:target.Handle", "Tombstone:target.Id", "Tombstone:target.Param", "Tombstone:where",
+    "TransitionActivity:expect_state", "TransitionActivity:set_fields", "TransitionActivity:set_structural",
+    "TransitionActivity:target.Handle", "TransitionActivity:target.Id", "TransitionActivity:target.Param",
+    "Update:SetAttributes", "Update:SetFacet", "Update:SetFields", "Update:SetStructural", "Update:UnsetAttributes",
+    "Update:UnsetFacet", "Update:UnsetStructural", "Update:expect_version", "Update:limit", "Update:set_structural",
+    "Update:target.Handle", "Update:target.Id", "Update:target.Param", "Update:unset_structural", "Update:where",
+    "UpsertConcept:expect_version", "UpsertConcept:match", "UpsertConcept:match.id", "UpsertConcept:match.key",
+    "UpsertConcept:set_attributes", "UpsertConcept:set_facets", "UpsertConcept:set_fields",
+    "UpsertConcept:set_structural", "UpsertConcept:unset_attributes", "UpsertConcept:unset_facets",
+    "UpsertConcept:unset_structural", "Validate:options", "as_of:Seq", "as_of:Time", "as_of:Tx", "bound:Array",
+    "bound:Handle", "bound:Object", "bound:Param", "bound:Value", "bound:Variable", "cmd:Kml", "cmd:Kql", "cmd:Meta",
+    "edge:options", "filter:Comparison.Equal", "filter:Comparison.GreaterEqual", "filter:Comparison.GreaterThan",
+    "filter:Comparison.LessEqual", "filter:Comparison.LessThan", "filter:Comparison.NotEqual",
+    "filter:Function.Contains", "filter:Function.EndsWith", "filter:Function.In", "filter:Function.IsElement",
+    "filter:Function.IsKind", "filter:Function.IsLiteral", "filter:Function.IsNotNull", "filter:Function.IsNull",
+    "filter:Function.LiteralType", "filter:Function.Regex", "filter:Function.StartsWith", "filter:Logical.And",
+    "filter:Logical.Or", "filter:Not", "find:Aggregation.Avg", "find:Aggregation.Count", "find:Aggregation.Max",
+    "find:Aggregation.Min", "find:Aggregation.Sum", "find:Aggregation.distinct", "find:Variable", "hops:exact",
+    "hops:open", "hops:range", "kml:Archive", "kml:CorrectEvidence", "kml:CreateActivity", "kml:CreateAssertion",
+    "kml:CreateConcept", "kml:CreateEvidence", "kml:EnsureProposition", "kml:MergeConcept", "kml:Purge",
+    "kml:RetractAssertion", "kml:SetRetention", "kml:SupersedeAssertion", "kml:Tombstone", "kml:TransitionActivity",
+    "kml:Update", "kml:UpsertConcept", "kml:assert-desugared", "kml:explicit_transaction", "kml:multi_clause",
+    "kml:single_statement", "kql:cursor", "kql:epistemic", "kql:for_time", "kql:limit", "kql:order_by",
+    "kql:order_by.multiple", "lit:Array", "lit:Bool", "lit:Null", "lit:Number.float", "lit:Number.int",
+    "lit:Number.negative", "lit:Object", "lit:String", "match:Array", "match:Literal", "match:Match", "match:Param",
+    "match:Proposition", "match:Variable", "matcher:empty", "meta:Changes.AfterSeq", "meta:Changes.Since",
+    "meta:Describe.Access", "meta:Describe.Capabilities", "meta:Describe.Capsule", "meta:Describe.Compatibility",
+    "meta:Describe.EpistemicPolicy", "meta:Describe.Error", "meta:Describe.ExecutionContext", "meta:Describe.Facet",
+    "meta:Describe.Package", "meta:Describe.Predicate", "meta:Describe.Primer", "meta:Describe.ProjectionCapability",
+    "meta:Describe.Protocol", "meta:Describe.SchemaEnvironment", "meta:Describe.Snapshot", "meta:Describe.Space",
+    "meta:Describe.StructuralField", "meta:Describe.Transaction", "meta:Describe.TransactionByIdempotencyKey",
+    "meta:Describe.Trust", "meta:Describe.Type", "meta:ExportCapsule", "meta:History.Element", "meta:History.Space",
+    "meta:List.EpistemicPolicies", "meta:List.Facets", "meta:List.Predicates", "meta:List.SchemaPackages",
+    "meta:List.Spaces", "meta:List.StructuralFields", "meta:List.Types", "meta:Preview.ImportCapsule",
+    "meta:Preview.Kml", "meta:Search.Activity", "meta:Search.Assertion", "meta:Search.Cognition",
+    "meta:Search.Concept", "meta:Search.Evidence", "meta:Search.Proposition", "meta:Snapshot",
+    "meta:Validate.Capsule", "meta:Validate.ImportPlan", "meta:Validate.Kml", "meta:Validate.Kql",
+    "meta:Validate.SchemaPackage", "meta:Verify.Blob", "meta:Verify.Capsule", "meta:Verify.Checkpoint",
+    "meta:Verify.Receipt", "meta:Verify.SchemaPackage", "mval:Array", "mval:Expr", "mval:Handle", "mval:Object",
+    "mval:Param", "mval:Value", "mval:Variable", "operand:List", "operand:Literal", "operand:Negate",
+    "operand:Param", "operand:Variable", "order:Asc", "order:Desc", "order:aggregation", "path:Field", "path:Key",
+    "path:bare", "pred:Atom", "pred:Literal", "pred:Param", "pred:Path", "pred:Variable", "pred:alternation",
+    "prop:Id", "prop:Tuple", "scalar:Literal", "scalar:Param", "symbol:Name", "symbol:Param", "term:Literal",
+    "term:Match", "term:Param", "term:Proposition", "term:Variable", "uexpr:Function.Add", "uexpr:Function.Clamp",
+    "uexpr:Function.Coalesce", "uexpr:Function.Mul", "uexpr:Number", "uexpr:Param", "uexpr:Variable",
+    "where:Activity", "where:Assertion", "where:Belief.Id", "where:Belief.Proposition", "where:Belief.Tuple",
+    "where:BeliefSlot", "where:Concept", "where:Evidence", "where:Filter", "where:Not", "where:Optional",
+    "where:Proposition.novar", "where:Proposition.var", "where:Structural.novar", "where:Structural.var",
+    "where:Union", "where:empty",
+];
+
 fn main() {
-    println!("INCONCLUSIVE property=C15 monitor not built yet");
-    std::process::exit(2);
+    proc::child_entry(child_case);
+    let mut run = Run::from_args(
+        "C15",
+        "exploration",
+        "inputs: noise, grammar-derived sentences (one path drilled to / beyond the nesting limit), the repository's \
+         corpora, token-level mutants; an accepted input is non-trivial when its tree exercises >= 12 grammar families \
+         (distinct by serialized tree)",
+    );
+    run.assume("keyword = a bare word from the reserved list of KIPSyntax.md in keyword position; a word followed by ':' (key), or by ',' / '}' (field-name list) is a name and keeps its case; registered function names count as keywords only in call position");
+    run.assume("inter-token trivia = ASCII whitespace and //-comments; a variable with its dot path / [\"key\"] steps, a :parameter, a number with its sign and a predicate with its glued hop quantifier \"p\"{m,n} are single lexical units");
+    run.assume("the JSON text decoder of serde_json refuses trees nested deeper than 128 levels on its own; that refusal is counted, the value-level round trip is asserted");
+    run.assume("over-limit refusal 'before parsing' is observed as: resource error from every entry point with <= 64 allocations although the input carries thousands of tokens before the offending bracket");
+    run.assume(&format!("bounded work: thread CPU time of one parse of a legal input (sizes doubled up to the length limit) of each pathological family <= {WORK_BOUND_S} s when the time at least tripled over the last doubling of the input, <= {} s when growth is linear (load noise must not decide); minimum of repeated measurements when within 1.5x of the bound; the quick tier gives a measurement up at 2.1x the bound", 2.0 * WORK_BOUND_S));
+    let stack_kib = run.arg_u64("stack_kib", 1024);
+    run.set_extra("parser_thread_stack_kib", json!(stack_kib));
+    let t = run.tier;
+    let workers = run.threads;
+    let wd = Duration::from_secs(t.pick(120, 900));
+
+    // the pathological families run next to everything else (a few of them take seconds)
+    let scaling = if run.wants("scaling") {
+        let spec_seed = run.seed;
+        let tier = run.tier.name().to_string();
+        let replay = run.replay.clone();
+        Some(std::thread::spawn(move || {
+            let mut st = Stats::default();
+            let fams: Vec<u64> = match &replay {
+                Some(r) if r.get("section").and_then(|v| v.as_str()) == Some("scaling") => vec![r.get("case").and_then(|v| v.as_u64()).unwrap_or(0)],
+                Some(_) => vec![],
+                None => (0..SCALING.len() as u64).collect(),
+            };
+            let next = std::sync::atomic::AtomicUsize::new(0);
+            let merged = std::sync::Mutex::new(Stats::default());
+            std::thread::scope(|s| {
+                for _ in 0..3 {
+                    s.spawn(|| loop {
+                        let i = next.fetch_add(1, std::sync::atomic::Ordering::Relaxed);
+                        if i >= fams.len() {
+                            break;
+                        }
+                        let spec = ChildSpec {
+                            section: "scaling".into(),
+                            from: fams[i],
+                            to: fams[i] + 1,
+                            seed: spec_seed,
+                            tier: tier.clone(),
+                            stack_kib,
+                            deadline_ms: u64::MAX,
+                            out: String::new(),
+                            trace: None,
+                        };
+                        let mut local = Stats::default();
+                        match proc::run_child(&spec, Duration::from_secs(300)) {
+                            proc::ChildResult::Ok(s) => local = s,
+                            proc::ChildResult::Signal(sig, err) => local.violation(
+                                format!("C15/parser-aborted/scaling/{}", SCALING[fams[i] as usize]),
+                                json!({"section": "scaling", "case": fams[i], "family": SCALING[fams[i] as usize], "signal": sig, "stderr": err}),
+                            ),
+                            proc::ChildResult::Timeout => {
+                                local.inconclusive(format!("watchdog (300 s) fired on scaling family {}", SCALING[fams[i] as usize]))
+                            }
+                            proc::ChildResult::Failed(e) => local.inconclusive(format!("child failure on scaling family {}: {e}", SCALING[fams[i] as usize])),
+                        }
+                        merged.lock().unwrap().merge(local);
+                    });
+                }
+            });
+            st.merge(merged.into_inner().unwrap());
+            st
+        }))
+    } else {
+        None
+    };
+
+    let w = workers.saturating_sub(2).max(2);
+    let mut section_wall = BTreeMap::new();
+    let mut t_prev = run.elapsed();
+    let mut lap = |name: &str, run: &Run, section_wall: &mut BTreeMap<String, f64>| {
+        let now = run.elapsed();
+        section_wall.insert(name.to_string(), (now - t_prev).as_secs_f64());
+        t_prev = now;
+    };
+    if run.wants("limits") {
+        proc::run_section(&mut run, "limits", limits_cases(), 12, 0.25, w, stack_kib, wd);
+        lap("limits", &run, &mut section_wall);
+    }
+    if run.wants("corpus") {
+        let mut missing = vec![];
+        let n = corpus::load(&mut missing).len() as u64;
+        for m in missing {
+            run.stats.inconclusive(format!("corpus source unreadable: {m}"));
+        }
+        proc::run_section(&mut run, "corpus", n * t.pick(2, 30), 48, 0.25, w, stack_kib, wd);
+        lap("corpus", &run, &mut section_wall);
+    }
+    if run.wants("gen") {
+        proc::run_section(&mut run, "gen", t.pick(16_000, 1_200_000), t.pick(250, 4000), 0.75, w, stack_kib, wd);
+        lap("gen", &run, &mut section_wall);
+    }
+    if run.wants("noise") {
+        proc::run_section(&mut run, "noise", t.pick(4_000, 300_000), t.pick(125, 4000), 0.9, w, stack_kib, wd);
+        lap("noise", &run, &mut section_wall);
+    }
+    if let Some(h) = scaling {
+        match h.join() {
+            Ok(st) => {
+                // keep every scaling measurement in the evidence, not only the first few samples
+                let rows: Vec<Value> = st.samples.iter().filter(|s| s.get("kind").and_then(|k| k.as_str()) == Some("scaling")).cloned().collect();
+                let mut table = BTreeMap::new();
+                for r in rows {
+                    if let Some(f) = r.get("family").and_then(|f| f.as_str()) {
+                        table.insert(f.to_string(), r.clone());
+                    }
+                }
+                run.set_extra("parse_time_at_doubling_sizes", json!(table));
+                let mut st = st;
+                st.samples.clear();
+                run.stats.merge(st);
+            }
+            Err(_) => run.stats.inconclusive("scaling thread panicked"),
+        }
+    }
+    lap("waiting for scaling", &run, &mut section_wall);
+    run.set_extra("section_wall_s", json!(section_wall));
+    proc::cleanup_scratch();
+
+    // ---- evidence floors
+    let acc = run.stats.get("accepted");
+    let inp = run.stats.get("inputs").max(1);
+    run.set_extra("acceptance_rate", json!(acc as f64 / inp as f64));
+    run.set_extra(
+        "corpus_items_accepted_of_total",
+        json!([run.stats.get("corpus_items_accepted"), run.stats.get("corpus_items")]),
+    );
+    run.floor("inputs", t.pick(60_000, 1_000_000));
+    run.floor("accepted", t.pick(15_000, 200_000));
+    run.floor("class:Kql", 2000);
+    run.floor("class:Kml", 2000);
+    run.floor("class:Meta", 2000);
+    run.floor("class:rejected", 10_000);
+    run.floor("json_accepted", 200);
+    run.floor("corpus_items", 500);
+    run.floor("corpus_items_accepted", 350);
+    run.floor("oracle_determinism", 300_000);
+    run.floor("oracle_agreement", 60_000);
+    run.floor("oracle_serde_roundtrip", 15_000);
+    run.floor("serde_text_roundtrips", 10_000);
+    run.floor("oracle_whole_input_consumed", 15_000);
+    run.floor("oracle_metamorphic:case", 10_000);
+    run.floor("oracle_metamorphic:trivia", 10_000);
+    run.floor("oracle_metamorphic:compact", 10_000);
+    run.floor("oracle_metamorphic:case+trivia", 10_000);
+    run.floor("oracle_refused_over_limit", 200);
+    run.floor("oracle_refusal_is_cheap", 150);
+    run.floor("nesting_cases_just_over_limit", 40);
+    run.floor("nesting_cases_just_below_limit", 40);
+    run.floor("accepted_at_exactly_the_nesting_limit", 8);
+    run.floor("length_cases_over_limit", 15);
+    run.floor("length_cases_at_or_below_limit", 8);
+    run.floor("generated_beyond_nesting_limit", 100);
+    run.floor("generated_within_4_of_nesting_limit", 30);
+    run.floor("scaling_families_measured", SCALING.len() as u64);
+    run.floor("tokenizer_checked_against_generator", 10_000);
+    for m in ["splice", "splice-donor", "delete", "duplicate", "truncate", "truncate-mid-token", "swap", "case-any", "trivia-anywhere", "gap-removed", "hostile-string", "bracket", "comment"] {
+        run.floor(&format!("mutator:{m}"), 500);
+    }
+    run.floor_set("distinct_accepted_asts", t.pick(8_000, 100_000));
+    if run.replay.is_none() && run.only.is_none() {
+        let missing: Vec<&str> = REQUIRED_FAMILIES.iter().copied().filter(|f| run.stats.get(&format!("fam:{f}")) == 0).collect();
+        if !missing.is_empty() {
+            run.stats.inconclusive(format!("grammar families never reached by an accepted input: {}", missing.join(", ")));
+        }
+        let listed: std::collections::BTreeSet<&str> = REQUIRED_FAMILIES.iter().copied().collect();
+        let unlisted: Vec<String> = run
+            .stats
+            .counters
+            .keys()
+            .filter_map(|k| k.strip_prefix("fam:"))
+            .filter(|f| !listed.contains(f))
+            .map(|s| s.to_string())
+            .collect();
+        run.set_extra("families_reached_but_not_required", json!(unlisted));
+        run.set_extra("required_families", json!(REQUIRED_FAMILIES.len()));
+    }
+    run.finish();
 }
